@@ -5,6 +5,7 @@ package main
 import (
 	"fmt"
 	"go/token"
+	"sort"
 
 	"golang.org/x/tools/go/ssa"
 )
@@ -18,7 +19,7 @@ func init() {
 			"R06-killarg — constant arguments of every switchToParentThread call: kill=false only at the yield site (dominated by a negative host-function result), true at body termination and on error; haserror=true only in threadRun; switchToParentThread restores CurrentThread and clears Parent on every path; Status derives its four answers from Dead / CurrentThread / Parent in that priority. " +
 			"R06-resumeapi — the Go-side Resume removes what the coroutine handed over from the resumer's stack on every return path (SetTop(top) with the top taken before the switch), so a failed or yielding coroutine leaves the resumer's own stack untouched. NOT decided: payload transfer counts/order, register offsets in switchToParentThread, per-thread state isolation.",
 		Trusted: []string{},
-		Rules:   []func(*Ctx){ruleResumeGuard, ruleRelease, ruleKillArg, ruleResumeApi, ruleDeadThreadPush, ruleResumePadField, ruleRaiseOnOwnState},
+		Rules:   []func(*Ctx){ruleResumeGuard, ruleRelease, ruleKillArg, ruleResumeApi, ruleDeadThreadPush, ruleResumePadField, ruleRaiseOnOwnState, ruleResumeConvention},
 	})
 }
 
@@ -455,10 +456,20 @@ func ruleResumeApi(c *Ctx) {
 	// F44: the values of a resume are the results of the pending yield; both resume paths pad them with nil
 	// up to the count the yielding call expects (registers above the stack top hold Go nil, not LNil)
 	pad := p.Fn("lua", "(*LState).padResumeValues")
-	for _, name := range []string{"(*LState).Resume", "coResume"} {
-		rf := p.Fn("lua", name)
-		if rf == nil || pad == nil {
-			c.und(R, name+":pads-resume-values", "-", "Resume/coResume/padResumeValues not found")
+	// the resume entry points: every function of the package that runs a thread
+	var resumers []*ssa.Function
+	for _, f := range p.srcFuncs {
+		if f.Pkg != nil && f.Pkg.Pkg.Path() == luaPath && len(callsTo(f, run)) > 0 {
+			resumers = append(resumers, f)
+		}
+	}
+	sort.Slice(resumers, func(i, j int) bool { return fname(resumers[i]) < fname(resumers[j]) })
+	if len(resumers) < 2 || pad == nil {
+		c.und(R, "pads-resume-values", "-", "fewer than two callers of threadRun, or padResumeValues not found")
+	}
+	for _, rf := range resumers {
+		name := fname(rf)
+		if pad == nil {
 			continue
 		}
 		rg := p.G(rf)
